@@ -410,6 +410,29 @@ func runC07(ctx *core.Ctx) {
 		ctx.Count("ast-random")
 		ast := rnd(3, false)
 		ctx.Add("substSpec", specArgs{Ast: ast, Env: env})
+		// correspondence on grammar-shaped text: the rendering itself and a one-edit perturbation of it
+		// (mostly-valid structured inputs: nested braces, greedy tails, operators inside arguments)
+		txt := renderSegs(ast)
+		ctx.Count("rendered-ast-string")
+		ctx.Add("subst", substArgs{T: txt, Env: env})
+		if r := []rune(txt); len(r) > 0 {
+			pos := ctx.Rng.Intn(len(r) + 1)
+			var mut []rune
+			switch ctx.Rng.Intn(3) {
+			case 0: // delete
+				if pos == len(r) {
+					pos--
+				}
+				mut = append(append(mut, r[:pos]...), r[pos+1:]...)
+			case 1: // insert
+				mut = append(append(append(mut, r[:pos]...), []rune(wide[ctx.Rng.Intn(len(wide))])...), r[pos:]...)
+			default: // duplicate a slice (creates repeated / unbalanced braces)
+				end := pos + ctx.Rng.Intn(len(r)-pos+1)
+				mut = append(append(append(mut, r[:end]...), r[pos:end]...), r[end:]...)
+			}
+			ctx.Count("perturbed-ast-string")
+			ctx.Add("subst", substArgs{T: string(mut), Env: env})
+		}
 		if i%ctx.Pick(10, 40) == 0 {
 			// every n-th random AST is also pushed through the whole loader
 			ctx.Count("ast-random-load")
